@@ -94,16 +94,41 @@ static bool pick(const long *vals, int idx, long &out)
 	for (int j = 0; j < idx; ++j) if (vals[j] == out) return false;
 	return true;
 }
-static std::string bufcanon(mpt::buffer *b)
+// allocation-free text building: canonical states and screening keys are built for every step
+struct Out {
+	char buf[640]; size_t n;
+	Out() : n(0) { buf[0] = 0; }
+	void c(char ch) { if (n + 1 < sizeof buf) { buf[n++] = ch; buf[n] = 0; } }
+	void s(const char *t) { while (*t) c(*t++); }
+	void u(size_t v) { char t[24]; int k = 0; do { t[k++] = (char) ('0' + v % 10); v /= 10; } while (v); while (k) c(t[--k]); }
+	void x(unsigned v) { static const char hx[] = "0123456789abcdef"; if (v >= 16) x(v / 16); c(hx[v % 16]); }
+	void cls(size_t v, size_t top) { if (v < top) u(v); else { u(top); c('+'); } }
+};
+static void bufcanon_w(Out &o, mpt::buffer *b)
 {
-	if (!b) return "-";
+	if (!b) { o.c('-'); return; }
 	size_t used = b->_used, size = b->_size;
 	uint32_t fl = b->get_flags();
 	size_t left = size >= used ? size - used : 0;
-	std::string s = fmt("{t%d f%x%s u%s l%s c%zu", trid(b->_content_traits), fl & 0xff, (fl & mpt::BufferShared) ? "S" : "", cls5(used, 5), cls5(left, 6), std::min((size + 64) / 128, (size_t) 3));
-	if (used > size) s += " OVER";
-	return s + "}";
+	o.s("{t"); o.u(trid(b->_content_traits)); o.s(" f"); o.x(fl & 0xff); if (fl & mpt::BufferShared) o.c('S');
+	o.s(" u"); o.cls(used, 5); o.s(" l"); o.cls(left, 6); o.s(" c"); o.u(std::min((size + 64) / 128, (size_t) 3));
+	if (used > size) o.s(" OVER");
+	o.c('}');
 }
+// lazily formatted description of the running step (only needed when a violation is reported or a case is replayed)
+struct Desc {
+	std::string (*namefn)(int fam, int op); int fam, op; bool slice;
+	size_t used, cap; long pos, len; char pre[640];
+	std::string str() const
+	{
+		if (slice) return fmt("%s [nblk=%ld size=%ld; window off=%zu, capacity %zu] in state %s", namefn(fam, op).c_str(), len, pos, used, cap, pre);
+		return fmt("%s [used=%zu capacity=%zu pos=%ld len=%ld] in state %s", namefn(fam, op).c_str(), used, cap, pos, len, pre);
+	}
+};
+static std::string operator+(const Desc &d, const std::string &t) { return d.str() + t; }
+static std::string operator+(const Desc &d, const char *t) { return d.str() + t; }
+static std::string to_str(const Desc &d) { return d.str(); }
+static std::string to_str(const std::string &d) { return d; }
 static std::string hexs(const std::vector<uint8_t> &v) { return v.size() > 24 ? hex(v.data(), 24) + fmt("..(%zu)", v.size()) : hex(v.data(), v.size()); }
 static std::string diffdesc(const std::vector<uint8_t> &got, const std::vector<uint8_t> &want)
 {
@@ -124,7 +149,7 @@ static std::string diffdesc(const std::vector<uint8_t> &got, const std::vector<u
 #include <sys/time.h>
 static bool g_child = false, g_expired = false, g_suspect = false;   // g_suspect: the heap of this process may be corrupted
 static std::string g_child_out;
-static std::set<std::string> g_clean;
+static std::unordered_set<uint64_t> g_clean;
 static void report(Run &r, const std::string &sig, const std::string &detail)
 {
 	if (g_child) { if (g_child_out.empty()) g_child_out = sig + "\t" + detail; }
@@ -181,7 +206,7 @@ static void zygote_start()
 	z_req = a[1]; z_resp = b[0]; z_owner = getpid();
 }
 // returns true when the step may be executed in this process; false when the throw-away process observed a violation (reported here)
-static bool screened(Run &r, char fam, const std::string &key, const std::string &hint, const std::string &desc)
+template <class DS> static bool screened(Run &r, char fam, uint64_t key, const std::string &hint, const DS &dsc)
 {
 	if (g_child || r.replaying || g_clean.count(key)) return true;
 	if (z_owner != getpid()) return true;       // no zygote: run directly
@@ -199,7 +224,7 @@ static bool screened(Run &r, char fam, const std::string &key, const std::string
 	if (!res.empty() && res[0] == '\x01') {
 		std::string why = res.substr(1);
 		if (why == "SIG11") why = "SIGSEGV"; else if (why == "SIG7") why = "SIGBUS"; else if (why == "SIG8") why = "SIGFPE"; else if (why == "SIG6") why = "SIGABRT"; else if (why == "EXIT99") why = "ASAN-FATAL";
-		r.violation(hint + "|" + why, desc + ": the process died (" + why + ") while executing this step");
+		r.violation(hint + "|" + why, to_str(dsc) + ": the process died (" + why + ") while executing this step");
 		return false;
 	}
 	size_t t = res.find('\t');
@@ -207,9 +232,19 @@ static bool screened(Run &r, char fam, const std::string &key, const std::string
 	return false;
 }
 
-struct Stats { std::map<std::string, uint64_t> c; void add(const std::string &k) { ++c[k]; } };
+struct Stats {
+	std::map<const char *, uint64_t> lit; std::map<std::pair<const char *, bool>, uint64_t> ops;
+	std::map<std::string, uint64_t> merged() const
+	{
+		std::map<std::string, uint64_t> c;
+		for (auto &kv : lit) c[kv.first] += kv.second;
+		for (auto &kv : ops) c[std::string(kv.first.first) + (kv.first.second ? ":refused" : ":ok")] += kv.second;
+		return c;
+	}
+};
 static Stats *g_stats = 0;
-static void stat(const std::string &k) { if (g_stats) g_stats->add(k); }
+static void stat(const char *k) { if (g_stats) ++g_stats->lit[k]; }
+static void statop(const char *op, bool refused) { if (g_stats) ++g_stats->ops[std::make_pair(op, refused)]; }
 
 // ================================================================== family c / x : byte arrays + slice
 struct H { mpt::buffer *b; uintptr_t off, len; };
@@ -268,7 +303,7 @@ static void build_tables()
 
 template <int API>
 struct RawSys {
-	Run &r; H h[3]; Mdl m[3]; bool dead; int fault; size_t nap;
+	Run &r; H h[3]; Mdl m[3]; bool dead; int fault; size_t nap; const char *cur_opn; Desc dsc;
 	void V(const std::string &sig, const std::string &detail) { report(r, sig, detail); }
 	mpt::array *arr(int i) { return reinterpret_cast<mpt::array *>(&h[i]); }
 	mpt::slice *sl() { return reinterpret_cast<mpt::slice *>(&h[2]); }
@@ -323,14 +358,14 @@ struct RawSys {
 	std::string canon()
 	{
 		int g[3]; mpt::buffer *bs[3]; int n = groups(g, bs);
-		std::string s;
-		for (int j = 0; j < n; ++j) s += fmt("g%d", j) + bufcanon(bs[j]) + " ";
-		for (int i = 0; i < 3; ++i) s += fmt("%s=%s ", i == 2 ? "s" : (i ? "a1" : "a0"), g[i] < 0 ? "-" : fmt("g%d", g[i]).c_str());
+		Out o;
+		for (int j = 0; j < n; ++j) { o.c('g'); o.u(j); bufcanon_w(o, bs[j]); o.c(' '); }
+		for (int i = 0; i < 3; ++i) { o.s(i == 2 ? "s=" : (i ? "a1=" : "a0=")); if (g[i] < 0) o.c('-'); else { o.c('g'); o.u(g[i]); } o.c(' '); }
 		if (h[2].b || h[2].off || h[2].len) {
 			size_t used = h[2].b ? h[2].b->_used : 0, end = h[2].off + h[2].len;
-			s += fmt("win(o%s n%s %s)", cls5(h[2].off, 2), cls5(h[2].len, 2), end == used ? "E" : (end < used ? "I" : "X"));
+			o.s("win(o"); o.cls(h[2].off, 2); o.s(" n"); o.cls(h[2].len, 2); o.c(' '); o.c(end == used ? 'E' : (end < used ? 'I' : 'X')); o.c(')');
 		}
-		return s;
+		return std::string(o.buf, o.n);
 	}
 	// ---- reading back
 	bool read(int i, std::vector<uint8_t> &out, std::string &why)
@@ -348,7 +383,7 @@ struct RawSys {
 		return ok ? std::vector<uint8_t>(full.begin() + off, full.begin() + off + len) : std::vector<uint8_t>();
 	}
 	static const char *hname(int i) { return i == 2 ? "slice" : (i ? "array1" : "array0"); }
-	std::string stcls(mpt::buffer *b)
+	const char *stcls(mpt::buffer *b)
 	{
 		if (!b) return "null";
 		uint32_t f = b->get_flags();
@@ -356,14 +391,17 @@ struct RawSys {
 		return sh ? "shared" : (im ? "immutable" : "sole");
 	}
 	// compare every handle with its model; w = modified handle (-1: none)
-	bool check(const std::string &base, const std::string &desc, int w, bool refused, bool must_refuse = false)
+	template <class DS> bool check(const std::string &base, const DS &desc, int w, bool refused, bool must_refuse = false)
 	{
 		if (fault) { V(base + signame(fault), desc + ": the call faulted"); dead = true; return false; }
 		if (asan_error()) { V(base + "memory-error", desc + ": access outside the buffer / freed memory (AddressSanitizer)"); dead = true; return false; }
 		if (must_refuse && !refused) { V(base + "accepted-out-of-range", desc + ": arguments outside the data were not refused"); return false; }
-		stat(base.substr(0, base.find('|')) + (refused ? ":refused" : ":ok"));
+		statop(cur_opn, refused);
 		for (int pass = 0; pass < 2; ++pass) for (int i = 0; i < 3; ++i) {
 			if ((pass == 0) != (i != w)) continue;      // other handles first: a change seen through another handle is the primary finding
+			mpt::buffer *hb = h[i].b;
+			if (hb && hb->_used <= hb->_size && hb->_used == m[i].b.size() && !memcmp(bdata(hb), m[i].b.data(), hb->_used) && (i == w || hb->_content_traits == m[i].tr)) continue;
+			if (!hb && m[i].b.empty()) continue;
 			std::vector<uint8_t> got; std::string why;
 			const char *grp = i != w ? "other-handle-changed" : (refused ? "refused-but-changed" : "wrong-content");
 			if (!read(i, got, why)) { V(base + grp, desc + fmt(": %s: ", hname(i)) + why); dead = true; return false; }
@@ -380,10 +418,10 @@ struct RawSys {
 		for (int i = 0; i < 3; ++i) m[i].tr = h[i].b ? h[i].b->_content_traits : 0;
 		return true;
 	}
-	std::string opname(int op);
+	static std::string opname(int op);
 	bool apply(int op);
-	bool apply_c(const Inst &in, std::string &name);
-	bool apply_x(const Inst &in, std::string &name);
+	bool apply_c(const Inst &in);
+	bool apply_x(const Inst &in);
 	bool slice_write(const Inst &in, bool cxx);
 	void nontrivial(mpt::buffer *b) { if (b && (b->get_flags() & (mpt::BufferShared | mpt::BufferImmutable))) { r.count("nontrivial"); stat("target-shared-or-immutable"); } }
 };
@@ -432,32 +470,53 @@ template <int API> std::string RawSys<API>::opname(int op)
 }
 
 // ------------------------------------------------------------------ applying one letter
+static std::string raw_opname(int fam, int op);
+static const char *raw_hint(int k)
+{
+	static const char *n[] = { "mpt_array_append", "mpt_array_insert", "mpt_array_slice", "mpt_array_set", "mpt_array_reserve", "mpt_array_reduce", "mpt_printf", "mpt_array_string",
+		"mpt_buffer_cut", "mpt_buffer_insert", "mpt_buffer_set", "mpt_array_clone", "swap", "slice=", "slice=", "mpt_slice_write",
+		"array::append", "array::insert", "array::prepend", "array::set", "array::operator=", "array::operator=", "array::operator=(slice)", "array::operator+=", "array::printf", "array::string",
+		"array::set(value)", "array::set(reference)", "slice=", "slice=", "slice::shift", "slice::trim", "slice::write" };
+	return n[k];
+}
 template <int API> bool RawSys<API>::apply(int op)
 {
 	const Inst &in = g_tab[API][op];
 	relabel();
 	fault = 0;
 	asan_error();
-	std::string name = opname(op);
 	if (in.k == R_SWAP) {
 		if (h[0].b == h[1].b) return false;
 		std::swap(h[0].b, h[1].b); std::swap(m[0], m[1]);
 		return true;
 	}
-	std::string hint = name.substr(0, name.find('('));
-	r.hint(hint.c_str());
-	// structural class of everything the step can touch
-	std::string key = fmt("%d/%d/", API, op);
-	if (in.k == S_WRITE || in.k == XS_WRITE || in.k == XS_SHIFT || in.k == XS_TRIM) key += bufcanon(h[2].b) + fmt("o%s n%s e%d", cls5(h[2].off, 3), cls5(h[2].len, 3), h[2].b ? (h[2].off + h[2].len == h[2].b->_used) : 0);
-	else if (in.k == C_CLONE || in.k == X_ASSIGN || in.k == X_ADD || in.k == X_SETREF) key += bufcanon(h[0].b) + bufcanon(h[1].b) + bufcanon(h[2].b) + (h[0].b == h[1].b ? "=" : "") + (h[0].b == h[2].b ? "~" : "");
-	else if (in.k == S_ASSIGN || in.k == S_CLEAR || in.k == XS_FROM || in.k == XS_CLEAR || in.k == X_FROMSLICE) key += bufcanon(h[0].b) + bufcanon(h[1].b) + bufcanon(h[2].b) + fmt("o%s n%s", cls5(h[2].off, 3), cls5(h[2].len, 3)) + (h[0].b == h[2].b ? "~" : "");
-	else key += bufcanon(h[0].b);
+	r.hint(raw_hint(in.k));
 	bool frontier = r.cur.size() == nap + 2;
 	++nap;
 	if (frontier && g_expired) return false;     // deadline / violation cap reached: drain the queue without executing
-	if (frontier && !screened(r, API ? 'x' : 'c', key, hint, name + " in state " + canon())) return false;
+	// description of the step (formatted only when needed) with the state before it
+	{
+		int g[3]; mpt::buffer *bs[3]; int n = groups(g, bs);
+		Out o;
+		for (int j = 0; j < n; ++j) { o.c('g'); o.u(j); bufcanon_w(o, bs[j]); o.c(' '); }
+		for (int i = 0; i < 3; ++i) { o.s(i == 2 ? "s=" : (i ? "a1=" : "a0=")); if (g[i] < 0) o.c('-'); else { o.c('g'); o.u(g[i]); } o.c(' '); }
+		if (h[2].b || h[2].off || h[2].len) { o.s("win(off="); o.u(h[2].off); o.s(" len="); o.u(h[2].len); o.c(')'); }
+		dsc.namefn = raw_opname; dsc.fam = API; dsc.op = op; dsc.slice = false; dsc.used = dsc.cap = 0; dsc.pos = dsc.len = 0;
+		memcpy(dsc.pre, o.buf, o.n + 1);
+	}
+	if (frontier && !g_child && !r.replaying) {
+		// structural class of everything the step can touch
+		Out k; k.u(API); k.c('/'); k.u(op); k.c('/');
+		if (in.k == S_WRITE || in.k == XS_WRITE || in.k == XS_SHIFT || in.k == XS_TRIM) { bufcanon_w(k, h[2].b); k.c('o'); k.cls(h[2].off, 3); k.c('n'); k.cls(h[2].len, 3); k.c(h[2].b && h[2].off + h[2].len == h[2].b->_used ? 'E' : 'I'); }
+		else if (in.k == C_CLONE || in.k == X_ASSIGN || in.k == X_ADD || in.k == X_SETREF || in.k == S_ASSIGN || in.k == S_CLEAR || in.k == XS_FROM || in.k == XS_CLEAR || in.k == X_FROMSLICE) {
+			bufcanon_w(k, h[0].b); bufcanon_w(k, h[1].b); bufcanon_w(k, h[2].b); k.c('o'); k.cls(h[2].off, 3); k.c('n'); k.cls(h[2].len, 3);
+			if (h[0].b == h[1].b) k.c('='); if (h[0].b == h[2].b) k.c('~'); if (h[1].b == h[2].b) k.c('^');
+		}
+		else bufcanon_w(k, h[0].b);
+		if (!screened(r, API ? 'x' : 'c', fnv(k.buf, k.n), raw_hint(in.k), dsc)) return false;
+	}
 	++r.executions;
-	return API == 0 ? apply_c(in, name) : apply_x(in, name);
+	return API == 0 ? apply_c(in) : apply_x(in);
 }
 
 template <int API> bool RawSys<API>::slice_write(const Inst &in, bool cxx)
@@ -471,11 +530,12 @@ template <int API> bool RawSys<API>::slice_write(const Inst &in, bool cxx)
 	bool okv; std::vector<uint8_t> oldview = view(m[2].b, off, len, okv);
 	if (!okv) return false;
 	const uint8_t *src = in.c ? PAT : ZERO;
-	std::string st = stcls(b) + (b ? (end == b->_used ? ",window-at-end" : ",window-inside") : "");
+	std::string st = std::string(stcls(b)) + (b ? (end == b->_used ? ",window-at-end" : ",window-inside") : "");
 	std::string arg = !N ? "nblk=0" : (!size ? "size=0" : ((long) (N * size) <= avail ? "fits" : ((long) size <= avail ? "partly-fits" : "exceeds-capacity")));
 	std::string base = std::string("slice_write|") + st + "|" + arg + "|";
-	std::string desc = fmt("%s(nblk=%zu, %s, size=%ld) [window off=%zu len=%zu, capacity %zu] in state %s", cxx ? "slice::write" : "mpt_slice_write", N, in.c ? "data" : "NULL", size, off, len, cap, canon().c_str());
-	r.note("%s", desc.c_str());
+	Desc &desc = dsc; desc.slice = true; desc.used = off; desc.cap = cap; desc.pos = size; desc.len = N;
+	cur_opn = "slice_write";
+	if (r.replaying) r.note("%s", desc.str().c_str());
 	nontrivial(b);
 	ssize_t ret = -1;
 	fault = guarded([&] { mc::Lib l; ret = cxx ? sl()->write(N, in.c ? PAT : 0, size) : mpt::mpt_slice_write(sl(), N, in.c ? PAT : 0, size); });
@@ -504,21 +564,22 @@ template <int API> bool RawSys<API>::slice_write(const Inst &in, bool cxx)
 	return check(base, desc, 2, refused);
 }
 
-template <int API> bool RawSys<API>::apply_c(const Inst &in, std::string &name)
+template <int API> bool RawSys<API>::apply_c(const Inst &in)
 {
 	using namespace mpt;
 	mpt::buffer *b = h[0].b;
 	size_t used = b ? (size_t) b->_used : 0, cap = b ? (size_t) b->_size : 64, left = cap - used;
 	long P[5] = { 0, 1, (long) used - 1, (long) used, (long) used + 2 };
 	long L[6] = { 0, 1, 3, (long) left - 1, (long) left, (long) left + 1 };
-	std::string st = stcls(b), pre = canon();
-	bool sole = b && st == "sole";
+	const char *st = stcls(b);
+	bool sole = b && !strcmp(st, "sole");
 	long pos = 0, len = 0;
-	std::string base, desc;
+	std::string base; Desc &desc = dsc;
 	auto mk = [&](const char *op, const std::string &arg) {
-		base = std::string(op) + "|" + st + "|" + arg + "|";
-		desc = fmt("%s [used=%zu capacity=%zu pos=%ld len=%ld] in state %s", name.c_str(), used, cap, pos, len, pre.c_str());
-		r.note("%s", desc.c_str());
+		cur_opn = op;
+		base.reserve(96); base = op; base += '|'; base += st; base += '|'; base += arg; base += '|';
+		desc.used = used; desc.cap = cap; desc.pos = pos; desc.len = len;
+		if (r.replaying) r.note("%s", desc.str().c_str());
 	};
 	auto realloc_seen = [&]() { if (b && h[0].b && h[0].b->_size != cap) { r.count("nontrivial"); stat("reallocated"); } };
 	auto ptr_ok = [&](void *ret, size_t off) { return h[0].b && ret == bdata(h[0].b) + off; };
@@ -689,19 +750,20 @@ template <int API> bool RawSys<API>::apply_c(const Inst &in, std::string &name)
 	return false;
 }
 
-template <int API> bool RawSys<API>::apply_x(const Inst &in, std::string &name)
+template <int API> bool RawSys<API>::apply_x(const Inst &in)
 {
 	mpt::buffer *b = h[0].b;
 	size_t used = b ? (size_t) b->_used : 0, cap = b ? (size_t) b->_size : 64, left = cap - used;
 	long P[5] = { 0, 1, (long) used - 1, (long) used, (long) used + 2 };
 	long L[6] = { 0, 1, 3, (long) left - 1, (long) left, (long) left + 1 };
-	std::string st = stcls(b), pre = canon();
+	const char *st = stcls(b);
 	long pos = 0, len = 0;
-	std::string base, desc;
+	std::string base; Desc &desc = dsc;
 	auto mk = [&](const char *op, const std::string &arg) {
-		base = std::string(op) + "|" + st + "|" + arg + "|";
-		desc = fmt("%s [used=%zu capacity=%zu pos=%ld len=%ld] in state %s", name.c_str(), used, cap, pos, len, pre.c_str());
-		r.note("%s", desc.c_str());
+		cur_opn = op;
+		base.reserve(96); base = op; base += '|'; base += st; base += '|'; base += arg; base += '|';
+		desc.used = used; desc.cap = cap; desc.pos = pos; desc.len = len;
+		if (r.replaying) r.note("%s", desc.str().c_str());
 	};
 	auto realloc_seen = [&]() { if (b && h[0].b && h[0].b->_size != cap) { r.count("nontrivial"); stat("reallocated"); } };
 	auto ptr_ok = [&](void *ret, size_t off) { return h[0].b && ret == bdata(h[0].b) + off; };
@@ -907,7 +969,7 @@ static void build_ttab()
 }
 struct TSys {
 	typedef mpt::typed_array<int> TA; typedef mpt::unique_array<int> UA;
-	Run &r; Slots h; std::vector<int> m[3]; bool dead; int fault; size_t nap;
+	Run &r; Slots h; std::vector<int> m[3]; bool dead; int fault; size_t nap; const char *cur_opn;
 	TA *t(int i) { return reinterpret_cast<TA *>(&h.p[i]); }
 	UA *u(int i) { return reinterpret_cast<UA *>(&h.p[i]); }
 	void V(const std::string &sig, const std::string &detail) { report(r, sig, detail); }
@@ -949,7 +1011,7 @@ struct TSys {
 		if (fault) { V(base + signame(fault), desc + ": the call faulted"); dead = true; return false; }
 		if (asan_error()) { V(base + "memory-error", desc + ": access outside the buffer / freed memory (AddressSanitizer)"); dead = true; return false; }
 		if (must_refuse && !refused) { V(base + "accepted-out-of-range", desc + ": arguments outside the data were not refused"); return false; }
-		stat(base.substr(0, base.find('|')) + (refused ? ":refused" : ":ok"));
+		statop(cur_opn, refused);
 		for (int pass = 0; pass < 2; ++pass) for (int i = 0; i < 3; ++i) {
 			if ((pass == 0) != (i != w)) continue;
 			const char *grp = i != w ? "other-handle-changed" : (refused ? "refused-but-changed" : "wrong-content");
@@ -994,14 +1056,14 @@ struct TSys {
 		bool frontier = r.cur.size() == nap + 2; ++nap;
 		if (frontier && g_expired) return false;
 		std::string key = fmt("t/%d/", op) + tcanon(h.buf(0), 4) + tcanon(h.buf(1), 4) + tcanon(h.buf(2), 4) + (h.p[0] == h.p[1] ? "=" : "") + (h.p[0] == h.p[2] ? "~" : "") + (h.p[1] == h.p[2] ? "^" : "");
-		if (frontier && !screened(r, 't', key, hint, name + " in state " + canon())) return false;
+		if (frontier && !screened(r, 't', fnv(key.data(), key.size()), hint, name + " in state " + canon())) return false;
 		++r.executions;
 		int w = in.k == TK_ASSIGN ? 0 : in.a;
 		mpt::buffer *b = h.buf(w);
 		long n = b ? (long) (b->_used / 4) : 0, cap = b && heap_buf(b) ? (long) (b->_size / 4) : 16;
 		std::string st = tstate(b), pre = canon(), base, desc;
 		long pos = 0;
-		auto mk = [&](const char *opn, const std::string &arg) { base = std::string(opn) + "|" + st + "|" + arg + "|"; desc = fmt("%s [n=%ld capacity=%ld arg=%ld] in state %s", name.c_str(), n, cap, pos, pre.c_str()); r.note("%s", desc.c_str()); };
+		auto mk = [&](const char *opn, const std::string &arg) { cur_opn = opn; base = std::string(opn) + "|" + st + "|" + arg + "|"; desc = fmt("%s [n=%ld capacity=%ld arg=%ld] in state %s", name.c_str(), n, cap, pos, pre.c_str()); r.note("%s", desc.c_str()); };
 		auto touched = [&]() { if (b && heap_buf(b) && (b->get_flags() & mpt::BufferShared)) { r.count("nontrivial"); stat("target-shared-or-immutable"); } };
 		auto moved = [&]() { if (h.buf(w) != b && heap_buf(b)) { r.count("nontrivial"); stat("reallocated"); } };
 		auto dedupe = [&](const long *vals, int idx) { for (int j = 0; j < idx; ++j) if (vals[j] == vals[idx]) return false; return true; };
@@ -1103,7 +1165,7 @@ static void build_ptab()
 }
 struct PSys {
 	typedef mpt::pointer_array<int> PA; typedef mpt::typed_array<int *> DA;
-	Run &r; Slots h; std::vector<int> m[3]; bool dead; int fault; size_t nap;
+	Run &r; Slots h; std::vector<int> m[3]; bool dead; int fault; size_t nap; const char *cur_opn;
 	PA *p(int i) { return reinterpret_cast<PA *>(&h.p[i]); }
 	DA *d(int i) { return reinterpret_cast<DA *>(&h.p[i]); }
 	void V(const std::string &sig, const std::string &detail) { report(r, sig, detail); }
@@ -1146,7 +1208,7 @@ struct PSys {
 		if (fault) { V(base + signame(fault), desc + ": the call faulted"); dead = true; return false; }
 		if (asan_error()) { V(base + "memory-error", desc + ": access outside the buffer / freed memory (AddressSanitizer)"); dead = true; return false; }
 		if (must_refuse && !refused) { V(base + "accepted-out-of-range", desc + ": arguments outside the data were not refused"); dead = true; return false; }
-		stat(base.substr(0, base.find('|')) + (refused ? ":refused" : ":ok"));
+		statop(cur_opn, refused);
 		for (int pass = 0; pass < 2; ++pass) for (int i = 0; i < 3; ++i) {
 			if ((pass == 0) != (i != w)) continue;
 			const char *grp = i != w ? "other-handle-changed" : (refused ? "refused-but-changed" : "wrong-content");
@@ -1186,12 +1248,12 @@ struct PSys {
 		bool frontier = r.cur.size() == nap + 2; ++nap;
 		if (frontier && g_expired) return false;
 		std::string pre = canon();
-		if (frontier && !screened(r, 'p', fmt("p/%d/", op) + pre, hint, name + " in state " + pre)) return false;
+		if (frontier && !screened(r, 'p', fnv(pre.data(), pre.size(), 77 + op), hint, name + " in state " + pre)) return false;
 		++r.executions;
 		mpt::buffer *b = h.buf(0);
 		long n = b ? (long) (b->_used / sizeof(int *)) : 0, cap = b ? (long) (b->_size / sizeof(int *)) : 0;
 		std::string st = tstate(b), base, desc;
-		auto mk = [&](const char *opn, const std::string &arg) { base = std::string(opn) + "|" + st + "|" + arg + "|"; desc = fmt("%s [n=%ld capacity=%ld] in state %s", name.c_str(), n, cap, pre.c_str()); r.note("%s", desc.c_str()); };
+		auto mk = [&](const char *opn, const std::string &arg) { cur_opn = opn; base = std::string(opn) + "|" + st + "|" + arg + "|"; desc = fmt("%s [n=%ld capacity=%ld] in state %s", name.c_str(), n, cap, pre.c_str()); r.note("%s", desc.c_str()); };
 		auto touched = [&]() { if (b && (b->get_flags() & mpt::BufferShared)) { r.count("nontrivial"); stat("target-shared-or-immutable"); } };
 		auto moved = [&]() { if (h.buf(0) != b) { r.count("nontrivial"); stat("reallocated"); } };
 		std::vector<int> &mv = m[0];
@@ -1279,7 +1341,7 @@ static void build_mtab()
 struct MSys {
 	typedef mpt::map<int, int> MP; typedef MP::entry EN;
 	typedef std::vector<std::pair<int, int> > MV;
-	Run &r; Slots h; MV m[3]; bool dead; int fault; size_t nap;
+	Run &r; Slots h; MV m[3]; bool dead; int fault; size_t nap; const char *cur_opn;
 	MP *mp(int i) { return reinterpret_cast<MP *>(&h.p[i]); }
 	void V(const std::string &sig, const std::string &detail) { report(r, sig, detail); }
 	MSys(Run &run, uint64_t) : r(run), dead(false), fault(0), nap(0)
@@ -1320,7 +1382,7 @@ struct MSys {
 	{
 		if (fault) { V(base + signame(fault), desc + ": the call faulted"); dead = true; return false; }
 		if (asan_error()) { V(base + "memory-error", desc + ": access outside the buffer / freed memory (AddressSanitizer)"); dead = true; return false; }
-		stat(base.substr(0, base.find('|')) + (refused ? ":refused" : ":ok"));
+		statop(cur_opn, refused);
 		for (int pass = 0; pass < 2; ++pass) for (int i = 0; i < 3; ++i) {
 			if ((pass == 0) != (i != w)) continue;
 			const char *grp = i != w ? "other-handle-changed" : (refused ? "refused-but-changed" : "wrong-content");
@@ -1356,13 +1418,13 @@ struct MSys {
 		bool frontier = r.cur.size() == nap + 2; ++nap;
 		if (frontier && g_expired) return false;
 		std::string pre = canon();
-		if (frontier && !screened(r, 'm', fmt("m/%d/", op) + pre, hint, name + " in state " + pre)) return false;
+		if (frontier && !screened(r, 'm', fnv(pre.data(), pre.size(), 99 + op), hint, name + " in state " + pre)) return false;
 		++r.executions;
 		mpt::buffer *b = h.buf(0);
 		std::string st = tstate(b), base, desc;
 		MV &mv = m[0];
 		auto find = [&](int k) { for (size_t i = 0; i < mv.size(); ++i) if (mv[i].first == k) return (long) i; return -1L; };
-		auto mk = [&](const char *opn, const std::string &arg) { base = std::string(opn) + "|" + st + "|" + arg + "|"; desc = name + " in state " + pre; r.note("%s", desc.c_str()); };
+		auto mk = [&](const char *opn, const std::string &arg) { cur_opn = opn; base = std::string(opn) + "|" + st + "|" + arg + "|"; desc = name + " in state " + pre; r.note("%s", desc.c_str()); };
 		auto touched = [&]() { if (b && heap_buf(b) && (b->get_flags() & mpt::BufferShared)) { r.count("nontrivial"); stat("target-shared-or-immutable"); } };
 		switch (in.k) {
 		case MK_SET: case MK_APPEND: {
@@ -1406,6 +1468,11 @@ struct MSys {
 	}
 };
 
+
+static std::string raw_opname(int fam, int op)
+{
+	return fam == 0 ? RawSys<0>::opname(op) : RawSys<1>::opname(op);
+}
 
 // ------------------------------------------------------------------ one case in a throw-away process (see screened())
 template <class Sys> static std::string run_case_t(const Vec &v)
@@ -1466,7 +1533,7 @@ void mc_explore(Run &r, const std::string &job)
 	else if (fam == 't') bfs_histories<TSys>(r, inits, depth_of(r.tier, fam));
 	else if (fam == 'p') bfs_histories<PSys>(r, inits, depth_of(r.tier, fam));
 	else if (fam == 'm') bfs_histories<MSys>(r, inits, depth_of(r.tier, fam));
-	for (auto &kv : st.c) r.count(std::string(1, fam) + ":" + kv.first, kv.second);
+	for (auto &kv : st.merged()) r.count(std::string(1, fam) + ":" + kv.first, kv.second);
 	g_stats = 0;
 }
 void mc_replay(Run &r, const std::string &job, const Vec &v)
